@@ -111,6 +111,7 @@ type Ev struct {
 	Property string
 	Check    string
 	Rule     string
+	fileTag  string // partial evidence file name (the check that produced the cases)
 
 	mu          sync.Mutex
 	evaluations int64
@@ -132,7 +133,15 @@ var (
 )
 
 func NewEv(t testing.TB, property, check, rule string) *Ev {
-	e := &Ev{Property: property, Check: check, Rule: rule,
+	origCheck := check
+	if rigRaceMode && check != c16Check {
+		// the scenario rigs under the race detector, run for C16 (see rigRace below): the evidence goes to C16, labelled by the rig it came from
+		property, check = "C16", "c16-rig-race"
+		rule = "the scenario rigs of other properties (real server and client in " + "virtual time: delivery, acks, isolation, life cycle, upgrade, recovery, middlewares, heartbeats, reconnection, hostile peers, limits, latency) " +
+			"re-run with the harness built with -race; their own oracles are not evaluated here; oracle: runtime.RaceErrors() does not grow during a case (a report is attributed to the case just " +
+			"evaluated and named by the repository functions owning the two accesses); non-trivial = as in the rig's own check"
+	}
+	e := &Ev{Property: property, Check: check, Rule: rule, fileTag: origCheck,
 		nontrivial: map[uint64]struct{}{}, classes: map[string]int64{}, excluded: map[string]int64{},
 		sampleKeys: map[string]bool{}, extra: map[string]any{}, maxSamples: 4}
 	allEvMu.Lock()
@@ -177,6 +186,10 @@ func fp(v any) uint64 {
 // Case records one executed case. fingerprint identifies the case (canonical descriptor); nontrivial says whether it
 // satisfies the check's stated rule; classes are free-form labels counted into the distribution.
 func (e *Ev) Case(fingerprint any, nontrivial bool, classes ...string) {
+	rigRace(e, fingerprint)
+	if rigRaceMode && e.Check == "c16-rig-race" {
+		classes = []string{"rig:" + e.fileTag}
+	}
 	f := fp(fingerprint)
 	e.mu.Lock()
 	e.evaluations++
@@ -264,7 +277,7 @@ func (e *Ev) Flush() {
 		fmt.Fprintf(os.Stderr, "evidence marshal: %v\n", err)
 		return
 	}
-	name := fmt.Sprintf("ev-%s-%s-%d.json", e.Property, sanitize(e.Check), envShard)
+	name := fmt.Sprintf("ev-%s-%s-%d.json", e.Property, sanitize(e.fileTag), envShard)
 	if err := os.WriteFile(filepath.Join(envOut, name), b, 0o644); err != nil {
 		fmt.Fprintf(os.Stderr, "evidence write: %v\n", err)
 	}
@@ -473,4 +486,68 @@ func kfActive(id string, probe func() (stillFails bool, detail string)) bool {
 		kfStatus(id, still, detail)
 	}
 	return still
+}
+
+// ---------------------------------------------------------------------------------------------
+// C16 on the scenario rigs: when the harness is built with -race (group variant "race"), every check's cases double as concurrent
+// scenarios for C16. Ev.Case is called once per evaluated case; a growth of runtime.RaceErrors() since the previous call is
+// attributed to the case just evaluated and emitted as a C16 failure (the driver, run for C16, keeps only C16 failures).
+
+var (
+	rigRaceMu   sync.Mutex
+	rigRaceSeen = raceErrors()
+	rigRaceMark = raceLogSize()
+	rigRaceSigs = map[string]bool{}
+)
+
+var rigRaceMode = envStr("VERIF_RIGRACE", "") != ""
+
+func rigRace(e *Ev, c any) {
+	if !raceEnabled || !rigRaceMode || e.Check == c16Check {
+		return
+	}
+	rigRaceMu.Lock()
+	defer rigRaceMu.Unlock()
+	n := raceErrors()
+	if n == rigRaceSeen {
+		return
+	}
+	rep := raceLogSince(rigRaceMark)
+	rigRaceSeen, rigRaceMark = n, raceLogSize()
+	class := c16RaceClass(rep)
+	if class == "race:?~?" {
+		fmt.Printf("\nVERIF-INFRA race without repository frames during %s:\n%s\n", e.fileTag, rep)
+		return
+	}
+	if rigRaceSigs[class] {
+		return
+	}
+	rigRaceSigs[class] = true
+	emitFailure(&Failure{Property: "C16", Check: "c16-rig-race", Clause: "data-race", Class: class,
+		Detail: fmt.Sprintf("data race reported while %s evaluated this case:\n%s", e.fileTag, truncS(rep, 7000)), Case: map[string]any{"check": e.fileTag, "case": c}})
+}
+
+func init() {
+	registerReplay("c16-rig-race", func(raw json.RawMessage) *Failure {
+		var w struct {
+			Check string          `json:"check"`
+			Case  json.RawMessage `json:"case"`
+		}
+		if err := json.Unmarshal(raw, &w); err != nil {
+			panic(err)
+		}
+		replayMu.Lock()
+		fn := replayers[w.Check]
+		replayMu.Unlock()
+		if fn == nil {
+			panic("c16-rig-race: no replay function for " + w.Check)
+		}
+		before, mark := raceErrors(), raceLogSize()
+		_ = fn(w.Case) // the rig's own verdict is not the subject here
+		if raceErrors() > before {
+			rep := raceLogSince(mark)
+			return &Failure{Property: "C16", Check: "c16-rig-race", Clause: "data-race", Class: c16RaceClass(rep), Detail: truncS(rep, 7000), Case: w}
+		}
+		return nil
+	})
 }
